@@ -246,6 +246,98 @@ pub fn run(prop: &str, tier: &str, replay: Option<&str>) -> i32 {
         rep.add(sec);
     }
     {
+        // subject values: attribute type x string kind x value shape (NUL, blank, line break, dot, U+FEFF at either edge
+        // among them), alone and after another attribute: the imported subject is the generated one
+        let types = [DnTypeSpec::C, DnTypeSpec::St, DnTypeSpec::L, DnTypeSpec::O, DnTypeSpec::Ou, DnTypeSpec::Cn, DnTypeSpec::Custom(vec![2, 5, 4, 5]), DnTypeSpec::Custom(vec![0, 9, 2342, 19200300, 100, 1, 25])];
+        let values = value_shapes();
+        let mut cases: Vec<DnSpec> = Vec::new();
+        for t in &types {
+            for k in ALL_STR_KINDS {
+                for v in &values {
+                    cases.push(DnSpec(vec![(t.clone(), k, v.to_string())]));
+                    cases.push(DnSpec(vec![(DnTypeSpec::O, StrKind::Utf8, "first".into()), (t.clone(), k, v.to_string())]));
+                }
+            }
+        }
+        let sec = Section::new("sweep/dn-type x string-kind x value-shape", "8 attribute types x every string kind x 21 value shapes, alone and after another attribute: generated, imported, re-issued, imported again");
+        run::sweep_cases(&sec, &cases, &|c| format!("dn={:?}", c.0), &|c| {
+            let mut st = CertState::default();
+            st.dn = c.clone();
+            st.is_ca = IsCaSpec::Unconstrained;
+            judge(&known, &st, &ctx)
+        });
+        rep.add(sec);
+    }
+    {
+        // PEM texts with several blocks: whatever from_ca_cert_pem accepts is the FIRST block labelled CERTIFICATE,
+        // i.e. equals the DER import of that block (a bundle is "issuing CA first"; picking another block would make
+        // everything issued later name the wrong issuer)
+        let mk = |cn: &str, serial: u8| {
+            let mut st = CertState::default();
+            st.dn = DnSpec::cn(cn);
+            st.is_ca = IsCaSpec::Unconstrained;
+            st.serial = Some(vec![serial]);
+            eval_cert(&st, &ctx).der.expect("baseline CA certificate")
+        };
+        let certs = [mk("bundle first", 1), mk("bundle second", 2), mk("bundle third", 3)];
+        let key_block = refmodel::pem::encode("PRIVATE KEY", &[0x30, 0x03, 0x02, 0x01, 0x00]);
+        let params_block = refmodel::pem::encode("EC PARAMETERS", &[0x06, 0x08, 0x2a, 0x86, 0x48, 0xce, 0x3d, 0x03, 0x01, 0x07]);
+        let crl_block = refmodel::pem::encode("X509 CRL", &[0x30, 0x00]);
+        // a text is a sequence of blocks: 0..=2 certificate, 3 key, 4 EC parameters, 5 CRL; all sequences of <= 3 blocks, 4 in thorough
+        let maxlen = if thorough { 4 } else { 3 };
+        let mut seqs: Vec<Vec<u8>> = vec![vec![]];
+        let mut all: Vec<Vec<u8>> = Vec::new();
+        for _ in 0..maxlen {
+            let mut next = Vec::new();
+            for s in &seqs {
+                for b in 0..6u8 {
+                    let mut n = s.clone();
+                    n.push(b);
+                    next.push(n);
+                }
+            }
+            all.extend(next.iter().cloned());
+            seqs = next;
+        }
+        let cases: Vec<(Vec<u8>, u8)> = all.into_iter().flat_map(|s| (0..3u8).map(move |sep| (s.clone(), sep))).collect();
+        let sec = Section::new("pem/bundles", &format!("every sequence of <= {} PEM blocks over three CA certificates, a key block, an EC PARAMETERS block and a CRL block, joined by nothing / a comment line / CRLF line ends: from_ca_cert_pem either refuses the text or returns what from_ca_cert_der returns for the first CERTIFICATE block", maxlen)).with_deadline(cap);
+        run::sweep_cases(&sec, &cases, &|c| format!("blocks={:?} separator#{}", c.0, c.1), &|c| {
+            let mut out = Outcome::default();
+            let mut text = String::new();
+            for b in &c.0 {
+                let blk = match b {
+                    0..=2 => refmodel::pem::encode("CERTIFICATE", &certs[*b as usize]),
+                    3 => key_block.clone(),
+                    4 => params_block.clone(),
+                    _ => crl_block.clone(),
+                };
+                if c.1 == 1 {
+                    text.push_str("# next block\n");
+                }
+                text.push_str(&blk);
+            }
+            if c.1 == 2 {
+                text = text.replace('\n', "\r\n");
+            }
+            out.digest = fnv(text.as_bytes());
+            out.transitions = 1;
+            let first = c.0.iter().find(|b| **b <= 2).map(|b| &certs[*b as usize]);
+            match guarded(|| CertificateParams::from_ca_cert_pem(&text)) {
+                Err(p) => out.findings.push(Finding::new("IMP-PANIC", "from_ca_cert_pem", p)),
+                Ok(Err(_)) => {}
+                Ok(Ok(pp)) => match first {
+                    None => out.findings.push(Finding::new("IMP-PEM-DER-DISAGREE", "from_ca_cert_pem (bundle)", "a text without any CERTIFICATE block was imported")),
+                    Some(der) => match guarded(|| CertificateParams::from_ca_cert_der(&der.clone().into())) {
+                        Ok(Ok(pd)) if pd == pp => {}
+                        _ => out.findings.push(Finding::new("IMP-PEM-DER-DISAGREE", "from_ca_cert_pem (bundle)", format!("imported subject {:?}: not the first CERTIFICATE block of the text", project_real(&pp).dn))),
+                    },
+                },
+            }
+            out
+        });
+        rep.add(sec);
+    }
+    {
         // sweeps: 512 key-usage sets, 258 IsCa values, CIDR prefixes
         let cases: Vec<u16> = (0..512).collect();
         let sec = Section::new("sweep/key-usage-512", "all 512 key-usage subsets survive import as a set");
